@@ -117,8 +117,7 @@ func vpH_C12_loop() {
 	}
 	vpAssert(len(send) == rejected, "C12.loop-one-rejection-per-invalid-frame")
 	for len(send) > 0 {
-		_, isNotice := (<-send).(*ServerNoticeMsg)
-		vpAssert(isNotice, "C12.rejection-is-a-notice")
+		vpAssert(vpIsRejection(<-send), "C12.rejection-is-a-notice-or-rejecting-ok-closed")
 	}
 	vpReach("end")
 }
